@@ -24,7 +24,16 @@ if [ "$notests" != "--no-tests" ]; then
     if [ $trc -eq 0 ]; then break; fi
     # the known flaky hypothesis test (fails on the unchanged pinned tree too): retry when it is the only failure
     nfail=$(grep -c "^FAILED" "$wt/.tests.out")
-    if [ "$nfail" = "1" ] && grep -q "^FAILED.*test_increases_total_by_zero_or_weight" "$wt/.tests.out"; then continue; fi
+    if [ "$nfail" = "1" ] && grep -q "^FAILED.*test_increases_total_by_zero_or_weight" "$wt/.tests.out"; then
+      # everything else passed: re-run the flaky test alone; one pass is enough (it fails now and then on the unchanged tree too)
+      for again in 1 2 3 4 5; do
+        if (cd "$wt" && PYTHONPATH="$wt/src" /venv/bin/python -m pytest -q -p no:cacheprovider tests/test_histogram1d.py -k test_increases_total_by_zero_or_weight >/dev/null 2>&1); then
+          trc=0; tsum="$tsum (the failure is the known flaky hypothesis test; it passes when re-run alone)"; break
+        fi
+      done
+      if [ $trc -eq 0 ]; then break; fi
+      continue
+    fi
     break
   done
 fi
